@@ -75,6 +75,8 @@ def run_config(cf):
     if cf['nan']:
         kw['left'] = np.nan
         kw['right'] = np.nan
+    if cf.get('rs'):        # an explicit value for the right side only
+        kw['right'] = cf['rs']
     obs = []
     if cf.get('arr'):
         # one call with the whole (possibly 2-D) array of query values
@@ -246,6 +248,25 @@ def run(tier):
         ps = ps + [rnd.choice(ps) for _ in range(rnd.randint(1, 3))]
         rnd.shuffle(ps)
         cf['probes'] = ps
+        extra.append(cf)
+    # an explicit finite value for the right side (left omitted): what is
+    # returned above the last edge, method 'bounds', ascending coordinates
+    for i in range(150 if tier == 'quick' else 1500):
+        n = rnd.randint(2, 6)
+        vals = sorted(rnd.sample(range(0, 120, 4), n))
+        e = [vals[0] - (vals[1] - vals[0]) // 2] + \
+            [(a + b) // 2 for a, b in zip(vals[:-1], vals[1:])] + \
+            [vals[-1] + (vals[-1] - vals[-2]) // 2]
+        # (bounds given explicitly; the value is no index of the coordinate
+        # and not n, which the reader folds into the last cell as "on the
+        # outermost edge")
+        cf = {'c': vals, 'rep': rnd.choice(['edges', 'nx2']), 'e': e,
+              'method': 'bounds', 'clean': rnd.choice(['none', 'mask']),
+              'bnd': rnd.choice(['ignore', 'warn']), 'nan': False,
+              'rs': rnd.choice([999, 555])}
+        ps = set(vals) | set(e) | {x + 1 for x in e} | {x - 1 for x in e} | \
+            {max(e) + 40, max(e) + 2}
+        cf['probes'] = sorted(p for p in ps if p >= min(e))
         extra.append(cf)
     for cf in cfgs + extra:
         cf['kind'] = 'val'
